@@ -59,6 +59,31 @@ CLAIMED = {
         note="Partial: process-level nondeterminism (hash seeds, environment) is sampled by repeated execution, not proved; plot contributes its exit status only.",
         design="DESIGN.md section 7 C17",
         technique="Lean 4 proof (permutation invariance of the editor model) + repeated fresh-process execution"),
+    "C05": dict(
+        text="Lean theorems about the chunked reader model (Model/Split.lean): any chunking of a stream, including piped stdin with arbitrary fragmentation, yields exactly the Annex-B split of the whole stream (chunked_split_eq_spec, chunking_irrelevant, stdin_fragmentation_irrelevant). The routing of convert/demux/remove is checked directly on the real binary against an independent reference computed by the stream generator (NAL sequences per output, RPU rewrites equal to the library conversion), over AU shapes, NAL sizes up to several chunks, start codes at every offset -4..+4 around hooked and real chunk multiples, 3/4-byte start codes, trailing zeros, options, file vs fragmented stdin.",
+        note="Partial: hevc_parser's NAL labelling (types, frame indices) is a parameter recorded from the real library; the routing model M7 is validated by the reference oracle, its Lean transliteration is in progress (DESIGN.md section 7 C05).",
+        design="DESIGN.md section 7 C05",
+        technique="Lean 4 proof (chunking invariance by induction) + generator-reference oracle on the real CLI"),
+    "C06": dict(
+        text="Both layers are read through the chunked reader whose chunking invariance is a Lean theorem; mux/demux identities, AU structure (AUD, BL, EL wrapped as 63, RPU, EOS/EOB placement), --discard, independent BL/EL chunk boundaries, EL longer (error + trimmed output) and shorter (BL conserved) are checked on the real binary against the generator's reference interleave.",
+        note="Partial: the two-queue mux machine M8 is not yet transliterated to Lean; frame labels from hevc_parser are a parameter.",
+        design="DESIGN.md section 7 C06",
+        technique="Lean 4 proof (chunking invariance) + generator-reference oracle on the real CLI"),
+    "C07": dict(
+        text="extract-rpu returns RPUs in the display order computed independently by the generator from the POCs it chose (IDR/CRA/BLA periods, leading pictures, POC LSB wrap, 1..4 slices, EL present or not); inject-rpu layout (one RPU per frame, after all NALs except EOS/EOB, others unchanged), extract(inject(rpus)) = rpus, list shorter/longer, options; chunking invariance of the reader is the Lean theorem.",
+        note="Partial: the frame reordering of hevc_parser is third-party and taken as a parameter (validated against the generator's H.265 8.3.1 order); M8 inject/extract model not yet in Lean.",
+        design="DESIGN.md section 7 C07",
+        technique="Lean 4 proof (chunking invariance) + independent display-order oracle on the real CLI"),
+    "C18": dict(
+        text="Crafted prefix SEI NALs (1..4 messages, HDR10+ first/middle/last/only/absent, sizes across the FF-extension boundaries, other T.35 providers, truncated headers, emulation patterns) run through convert/demux/remove/mux/inject-rpu with and without --drop-hdr10plus and compared with an independent SEI walker: no ST 2094-40 message left, single-message NAL dropped, other messages keep bytes and order, everything else untouched. The re-escaping step relies on the C13 theorems.",
+        note="Partial: the SEI walker of hevc_parser is third-party (payload types >= 255 overflow a u8 there: recorded, outside the generator); SeiModel in Lean in progress.",
+        design="DESIGN.md section 7 C18",
+        technique="independent SEI-walker oracle on the real CLI + Lean 4 theorems on escaping/chunking"),
+    "C20": dict(
+        text="Lean model of the C view (Model/CView.lean) with 38 theorems: error set iff parse failed for the three wrappers, null pointer iff absent part/level, L2/L8/L10 lists complete and in order, NLQ markers, every allocated object freed exactly once and no null freed. The model's view is compared with the real C API read through independent repr(C) mirror structs; the C view is compared field by field with the Rust serde JSON; call sequences (convert, set offsets, remove mapping, 4 writers) are compared with the Rust API; a sample runs under valgrind.",
+        note="Partial: heap safety is observed (process survival with debug assertions, valgrind sample), not proved.",
+        design="DESIGN.md section 7 C20",
+        technique="Lean 4 proof over the view/ownership model + model/C-API correspondence + Rust-vs-C oracle + valgrind"),
     "C08": dict(
         text="Every parsing entry point (raw RPU, UNSPEC62 NAL, AV1 T.35 OBU, ST 2094-10 SEI, RPU .bin file, C API wrappers) is run on mutated, truncated, extreme-valued and random inputs under an address-space limit and time limits; the outcome class must be ok|err and must equal the class predicted by the executable Lean model (which marks third-party panic sites explicitly) for the modelled entry points; Lean theorems state the guards of the model (short buffers are errors, bit reader never panics).",
         note="Partial: time and memory are runtime facts observed under limits, not proved; ST 2094-10 and the file reader are exercised by direct oracle only; third-party exp-Golomb panics are known findings matched by panic site.",
